@@ -100,7 +100,10 @@ def run(ck: Checker):
 
     check_rewrites(ck, den, 'C14')
     ck.floor('C14.TPL', 20)
-    ck.floor('C14.IDX', 20)
+    # the converters adjust the users index through Circuit._add_user/_remove_user: their contract (one occurrence per call)
+    from .C02 import fold_primitives
+    fold_primitives(ck, den, R='C14.IDX', which=('users',))
+    ck.floor('C14.IDX', 27)
     ck.floor('C14.BLK', 20)
 
     # constants need an input: the converter must read it through input_at_index (raises on none)
